@@ -253,7 +253,8 @@ def parse_fun_of_strings(txt):
 # ----------------------------------------------------------------------------------------------
 # harness runs + trace validation
 
-CRASH_SIGNALS = {-11: "SIGSEGV", -7: "SIGBUS", -6: "SIGABRT", -4: "SIGILL"}
+CRASH_SIGNALS = {-11: "SIGSEGV", -7: "SIGBUS", -6: "SIGABRT", -4: "SIGILL",
+                 98: "HANG (a call into the code under test never returned: no progress for 120 s outside the scheduler's control)"}
 
 
 def _harness_once(exe, d, scenarios, name, timeout):
@@ -561,7 +562,9 @@ class Check:
             trace, runs, summ = run_harness(scenarios, "%s_%s" % (self.prop, name), profile, crashes=crashes)
             for cr in crashes:
                 # the process executing the real code died of a memory fault: no property holds on such an execution
-                self.violation("the real code crashed with %s while executing scenario %s (memory fault inside the code under test)" % (cr["signal"], cr["scenario"].get("id")),
+                what = "the real code never returned: %s, scenario %s" % (cr["signal"], cr["scenario"].get("id")) if str(cr["signal"]).startswith("HANG") else \
+                    "the real code crashed with %s while executing scenario %s (memory fault inside the code under test)" % (cr["signal"], cr["scenario"].get("id"))
+                self.violation(what,
                                {"scenario": cr["scenario"], "run": None, "events": [], "module": module, "consts": {k: tla_val(q) for k, q in consts.items()}, "invariant": "NoCrash", "crash": cr["signal"]})
         v = validate_trace(trace, runs, module, consts, "%s_%s_%s" % (self.prop, name, module), parallel=parallel)
         # the trace specification is itself explored by TLC: one state / one transition per matched event of every recorded behaviour
